@@ -770,6 +770,30 @@ func verifAssume(cond bool) {}
 //@   modifies nothing
 //@   ensures [C20] @samemux result != nil && fresh(result) && result.mux == mux
 //@   ensures [C03,C20] @sameconfig config != nil ==> result.config == config
+// The dispatcher that Build installs as the server's Authenticate callback: the
+// credentials a peer presents under a scheme are judged by the authenticator the
+// application enabled for THAT scheme, and its verdict is passed on unchanged (C03:
+// "the configured authentication callback returned a known role for the presented
+// identity, scheme and credentials").
+//@ callback role plainAuthenticator(ctx, identity, password) (result, err) : freevar plainAuth of buildAuthenticate$1
+//@   modifies nothing
+//@ callback role keyAuthenticator(ctx, identity, key) (result, err) : freevar keyAuth of buildAuthenticate$1
+//@   modifies nothing
+//@ callback role externalAuthenticator(ctx, identity, token, issuer) (result, err) : freevar externalAuth of buildAuthenticate$1
+//@   modifies nothing
+//@ func buildAuthenticate$1
+//@   props C03
+//@   requires authentication == nil || !payloadnil(authentication)  ## what the session decoder produces: a credential object, or nil - never a typed nil pointer
+//@   modifies nothing
+//@   checks [C03] @plainbyplain ncalls("role:plainAuthenticator") > 0 ==> istype(authentication, *PlainAuthentication) && ncalls("role:plainAuthenticator") == 1
+//@   checks [C03] @keybykey ncalls("role:keyAuthenticator") > 0 ==> istype(authentication, *KeyAuthentication) && ncalls("role:keyAuthenticator") == 1
+//@   checks [C03] @externalbyexternal ncalls("role:externalAuthenticator") > 0 ==> istype(authentication, *ExternalAuthentication) && ncalls("role:externalAuthenticator") == 1
+//@   checks [C03] @plainverdict istype(authentication, *PlainAuthentication) && result1 == nil ==> ncalls("role:plainAuthenticator") == 1 && result0 == resultof("role:plainAuthenticator", 0)
+//@   checks [C03] @keyverdict istype(authentication, *KeyAuthentication) && result1 == nil ==> ncalls("role:keyAuthenticator") == 1 && result0 == resultof("role:keyAuthenticator", 0)
+//@   checks [C03] @externalverdict istype(authentication, *ExternalAuthentication) && result1 == nil ==> ncalls("role:externalAuthenticator") == 1 && result0 == resultof("role:externalAuthenticator", 0)
+//@   checks [C03] @transportnever istype(authentication, *TransportAuthentication) ==> result1 != nil
+//@   checks [C03] @unknownschemerefused !istype(authentication, *GuestAuthentication) && !istype(authentication, *PlainAuthentication) && !istype(authentication, *KeyAuthentication) && !istype(authentication, *ExternalAuthentication) ==> result1 != nil
+
 //@ func buildAuthenticate :: (plainAuth, keyAuth, externalAuth) (result)
 //@   props C03
 //@   modifies nothing
